@@ -117,8 +117,8 @@ def pow_pauli_combination(
     t = (ai - v) ** exponent
 
     ci = (s + t) / 2
-    if s == t:
-        # v is near zero, only one term in binomial expansion survives
+    if v == 0:
+        # v is zero, only one term in binomial expansion survives
         cxyz = exponent * ai ** (exponent - 1)
     else:
         # v is non-zero, account for all terms of binomial expansion
